@@ -4,6 +4,7 @@
 //!                                        crate, evaluate the direct oracles
 //!   harness run                          stdin: `<id> <case>` lines -> `IMPL <id> <result>`
 //!   harness oracle <prop>                stdin: `<id> <case>` lines -> ORACLE lines (replay)
+mod dump;
 mod alloc;
 mod cases;
 mod exec;
@@ -462,6 +463,20 @@ fn main() {
             cases_for(prop, tier, seed, &mut out);
             out.flush();
             oracles::cleanup_scratch();
+        }
+        "dump" => {
+            let full = args.get(2).map(|s| s == "full").unwrap_or(false);
+            match std::panic::catch_unwind(|| dump::dump(full)) {
+                Ok(Ok(t)) => print!("{}", t),
+                Ok(Err(e)) => {
+                    eprintln!("DUMP-ERROR: {}", e);
+                    std::process::exit(3);
+                }
+                Err(_) => {
+                    eprintln!("DUMP-ERROR: panic");
+                    std::process::exit(3);
+                }
+            }
         }
         "run" | "oracle" => {
             let prop = args.get(2).cloned().unwrap_or_default();
